@@ -37,6 +37,7 @@ type World struct {
 	byName   map[string]*ssa.Function
 	AllFuncs map[*ssa.Function]bool
 	cg       *callgraph.Graph
+	vta      *callgraph.Graph
 	Whole    bool // LoadAllSyntax: dependency bodies are available
 
 	globals      map[*ssa.Global]*GlobalInfo
@@ -265,17 +266,28 @@ func (w *World) InstrPos(in ssa.Instruction) string {
 	return w.FnPos(in.Parent()) + "(fn)"
 }
 
-// CallGraph returns CHA (quick) or VTA-over-CHA (whole program) call graph.
+// CallGraph returns the CHA call graph.
 func (w *World) CallGraph() *callgraph.Graph {
 	if w.cg != nil {
 		return w.cg
 	}
+	// CHA is the sound choice for a library: an exported function's interface
+	// parameters can hold any implementation. (VTA has no flows into them
+	// without a main program and would resolve such invokes to nothing.)
 	g := cha.CallGraph(w.Prog)
-	if w.Whole {
-		g = vta.CallGraph(w.AllFuncs, g)
-	}
 	w.cg = g
 	return g
+}
+
+// VTAGraph: the more precise whole-program graph, used only to bound which
+// dependency functions are scanned in the thorough tier (never to resolve
+// in-repo interface calls).
+func (w *World) VTAGraph() *callgraph.Graph {
+	if w.vta != nil {
+		return w.vta
+	}
+	w.vta = vta.CallGraph(w.AllFuncs, w.CallGraph())
+	return w.vta
 }
 
 // Callees returns the possible in-repo callees (with bodies) of a call site:
